@@ -8,7 +8,10 @@
 package intdataplane
 
 import (
+	"regexp"
+
 	dpsets "github.com/projectcalico/calico/felix/dataplane/ipsets"
+	"github.com/projectcalico/calico/felix/nftables"
 	"github.com/projectcalico/calico/felix/proto"
 )
 
@@ -26,4 +29,14 @@ func VerifC41NewFlowtableExclusionManager(ipsetsDP dpsets.IPSetsDataplane, ipVer
 // VerifC41WorkloadNeedsForwardHooks calls the real workloadNeedsForwardHooks.
 func VerifC41WorkloadNeedsForwardHooks(wep *proto.WorkloadEndpoint) bool {
 	return workloadNeedsForwardHooks(wep)
+}
+
+// VerifC41NewFlowtableManager returns a real flowtableManager with one target per handler
+// (overlays[i] = that handler's overlay device names) and the given external device pattern.
+func VerifC41NewFlowtableManager(handlers []nftables.FlowTableHandler, overlays [][]string, pattern *regexp.Regexp) VerifC41Manager {
+	targets := make([]flowtableTarget, len(handlers))
+	for i := range handlers {
+		targets[i] = flowtableTarget{handler: handlers[i], overlayDevices: overlays[i]}
+	}
+	return newFlowtableManager(targets, pattern)
 }
